@@ -359,7 +359,7 @@ def samp_e(repo: Repo) -> List[Ob]:
                 obs.append(skip("SAMP-e", fi, key, P, c, f"{why}: {dets}"))
             elif any(r[0] == "bad" for r in results):
                 verdict = next(r[1] for r in results if r[0] == "bad")
-                obs.append(bad("SAMP-e", fi, key, P, c, f"{verdict}  [slice: {dets}]"))
+                obs.append(bad("SAMP-e", fi, key, P, c, f"{verdict}  [slice: {dets}]", code=dets))
             else:
                 obs.append(ok("SAMP-e", fi, key, P, c, f"Born form: {dets}"))
     if sites < len(PROJECTIVE):
@@ -499,6 +499,18 @@ def _is_basis_value(e: ast.AST) -> bool:
     return False
 
 
+def _shape_of(v: ast.AST) -> str:
+    """the essential literal of a survivor expression: its einsum string, or the primitive and the member whose outcome/axis it uses"""
+    for x in [v] + list(ast.walk(v)):
+        if isinstance(x, ast.Call) and call_np(x) == "einsum" and x.args and isinstance(x.args[0], ast.Constant):
+            return "einsum " + str(x.args[0].value).replace(" ", "")
+    for x in [v] + list(ast.walk(v)):
+        if isinstance(x, ast.Call) and call_np(x) in ("take", "sum", "trace"):
+            mem = sorted({"fock" if ".fock" in src(a) else "polarization" if ".polarization" in src(a) else "" for a in x.args[1:]} - {""})
+            return call_np(x) + "(" + ",".join(mem) + ")"
+    return type(v).__name__
+
+
 @rule("COLLAPSE")
 def collapse(repo: Repo) -> List[Ob]:
     """every member state written by a measurement function is conditioned on the drawn outcome(s) and,
@@ -525,7 +537,7 @@ def collapse(repo: Repo) -> List[Ob]:
                 v = a.value
                 if _is_basis_value(v):
                     (obs.append(ok("COLLAPSE", fi, key, P, a, "member is set to the basis state of its outcome")) if _depends_on_outcome(v, fi, cfg, n) else
-                     obs.append(bad("COLLAPSE", fi, key, P, a, "member is set to a fixed basis state that does not depend on the drawn outcome")))
+                     obs.append(bad("COLLAPSE", fi, key, P, a, "member is set to a fixed basis state that does not depend on the drawn outcome", code="fixed-basis:" + src(v)[:40])))
                     continue
                 cond = _depends_on_outcome(v, fi, cfg, n)
                 normed = any(isinstance(x, ast.BinOp) and isinstance(x.op, ast.Div) and (is_norm2(x.right) is not None or is_trace(x.right) is not None) for x in [v] + list(ast.walk(v)))
@@ -539,10 +551,12 @@ def collapse(repo: Repo) -> List[Ob]:
                 if cond and normed:
                     obs.append(ok("COLLAPSE", fi, key, P, a, "survivor is conditioned on the outcome and renormalised"))
                 elif cond:
-                    obs.append(bad("COLLAPSE", fi, key, P, a, f"the state left in `{src(t.value)}` is conditioned on the outcome but never renormalised: it is stored with norm/trace < 1"))
+                    obs.append(bad("COLLAPSE", fi, key, P, a, f"the state left in `{src(t.value)}` is conditioned on the outcome but never renormalised: it is stored with norm/trace < 1",
+                                   code="unnormalised:" + _shape_of(v)))
                 else:
                     obs.append(bad("COLLAPSE", fi, key, P, a,
-                                   f"the state written to `{src(t.value)}` after the measurement (`{src(v)[:50]}`) does not depend on any drawn outcome: it is the unconditioned marginal of the *pre-measurement* state, not the projection on the outcome"))
+                                   f"the state written to `{src(t.value)}` after the measurement (`{src(v)[:50]}`) does not depend on any drawn outcome: it is the unconditioned marginal of the *pre-measurement* state, not the projection on the outcome",
+                                   code="unconditioned:" + _shape_of(v)))
     if sites < 8:
         raise AnalysisError(f"COLLAPSE: {sites} member-state writes in Envelope.measure (floor 8)")
     # Envelope.measure_POVM: the member that survives a one-member POVM is reduced from the *post-measurement* state
